@@ -74,7 +74,7 @@ class Unit:
     def __init__(self, name, props, backend, parts, csig, spec, xform=None, compose=None, aux=(),
                  enforce=None, rec=False, replace='auto', no_replace=(), loops=None, defines=(),
                  cbmc_flags=(), harness=None, fire=None, replay=(), smt=None, timeout=None,
-                 bounded=None, unwind=None, extra_c='', pre_c='', notes='', max_fail_labels=None, must_contain=(), trusted=(), thorough_only=False, also_replace=(), also_replace_if_present=(), mode='contract'):
+                 bounded=None, unwind=None, extra_c='', pre_c='', notes='', max_fail_labels=None, must_contain=(), trusted=(), thorough_only=False, file_scope='', also_replace=(), also_replace_if_present=(), mode='contract'):
         self.name, self.props, self.backend = name, list(props), backend
         self.parts = parts if isinstance(parts, list) else [parts]
         self.csig, self.spec = csig, spec if isinstance(spec, (list, tuple)) else [spec]
@@ -90,7 +90,7 @@ class Unit:
         self.bounded = bounded      # None => unbounded proof ; else text describing the bound
         self.unwind = unwind
         self.extra_c = extra_c; self.pre_c = pre_c; self.notes = notes
-        self.aux = list(aux)
+        self.aux = list(aux); self.file_scope = file_scope   # text with @n placeholders emitted at file scope before the unit (helper overloads)
         self.mode = mode     # 'contract' (dfcc enforce/replace) or 'bounded' (plain cbmc on the harness with --unwind, never counted as proof)
         self.also_replace = list(also_replace); self.also_replace_if_present = list(also_replace_if_present)
         self.must_contain = list(must_contain); self.trusted = list(trusted); self.thorough_only = thorough_only
@@ -287,6 +287,13 @@ def build_unit(unit, workdir):
             txt, ainfo = extract_aux(a, F)
             infos.append(ainfo)
             f.write(txt)
+        if unit.file_scope:
+            fs = ''
+            for seg in re.split(r'(@\d+)', unit.file_scope):
+                if re.fullmatch(r'@\d+', seg):
+                    k = int(seg[1:]); fs += '\n' + cxx2c.emit(bodies[k], infos[k]['header']) + '\n'
+                else: fs += seg
+            f.write(fs + '\n')
         f.write(unit.csig + '\n{\n' + body_txt + '\n#line 1 "unit_end"\n}\n')
         f.write(unit.harness or gen_harness(unit))
     for k, (lo, hi) in unit.fire.items():
